@@ -173,8 +173,11 @@ def layer_opts(rng):
     return {'meta': rng.choice([[1, 1], [1, 1], [2, 2], [3, 2], [4, 4], [1, 3]]),
             'max_tiles': rng.choice([None, None, 1, 2, 4, 6, 9]),
             'dims': rng.choice([{}, {'time': (['2020', '2021'], '2020')},
-                                {'time': (['2020', '2021', 'default'], '2021'), 'elevation': (['0', '100'], '0')}]),
+                                {'time': (['2020', '2021', 'default'], '2021'), 'elevation': (['0', '100'], '0')},
+                                {'time': (['2012-11-14T00:00:00Z', '2012-11-15T00:00:00Z'], '2012-11-15T00:00:00Z'),
+                                 'elevation': (['Winter', 'summer', 'X1'], 'Winter')}]),
             'queryable': rng.random() < 0.7,
+            'mixed': rng.random() < 0.3,       # cache `format: mixed`: the layer still offers png only
             'format': 'png'}
 
 
@@ -189,14 +192,16 @@ REAL_GRIDS = [
 
 
 class App(object):
-    def __init__(self, ctx, specs, max_pixels):
-        """specs: list of (grid name, grid yaml dict, layer options, skip_first, skip_odd)."""
+    def __init__(self, ctx, specs, max_pixels, srs_extent=None):
+        """specs: list of (grid name, grid yaml dict, layer options, skip_first, skip_odd).
+        srs_extent: explicit bbox of services.wms.bbox_srs for EPSG:3857 (integers) or None."""
         import yaml
         from mapproxy.config.loader import load_configuration
         from mapproxy.wsgiapp import MapProxyApp
         import webtest
         self.tmp = ctx.tmpdir('app')
         self.max_pixels = max_pixels
+        self.srs_extent = srs_extent
         conf = {
             'services': {
                 'tms': {'use_grid_names': True},
@@ -218,12 +223,17 @@ class App(object):
         }
         if max_pixels is not None:
             conf['services']['wms']['max_output_pixels'] = max_pixels
+        if srs_extent is not None:
+            conf['services']['wms']['bbox_srs'] = [{'srs': 'EPSG:3857', 'bbox': list(srs_extent)}]
         for gname, gspec, opts, _sf, _so in specs:
             conf['grids'][gname] = gspec
             cache = {'grids': [gname], 'sources': ['upq' if opts['queryable'] else 'up'], 'format': 'image/' + opts['format'],
                      'meta_size': list(opts['meta']), 'meta_buffer': 0, 'cache': {'type': 'file'}}
             if opts['max_tiles'] is not None:
                 cache['max_tile_limit'] = opts['max_tiles']
+            if opts.get('mixed'):
+                cache['format'] = 'mixed'
+                cache['request_format'] = 'image/png'
             conf['caches']['c_' + gname] = cache
             lyr = {'name': 'l_' + gname, 'title': 'x', 'sources': ['c_' + gname]}
             if opts['dims']:
@@ -255,9 +265,9 @@ class App(object):
         o = li.opts
         dims = llit(sorted(o['dims'].items()), lambda kv: '(%d, (%s, %d))' % (
             DIM_ID[kv[0]], llit([val_id(v) for v in kv[1][0]]), val_id(kv[1][1])))
-        return '(mkLayer %s %d %s %d %d %s %s %s (Some %d))' % (
-            li.gc.name, fmt_id(o['format']), dims, o['meta'][0], o['meta'][1], blit(li.skip_first), blit(li.skip_odd),
-            blit(o['queryable']), li.limit)
+        return '(mkLayer %s %d %s %d %d %s %s %s (Some %d) %s)' % (
+            li.gc.name, fmt_id('mixed' if o.get('mixed') else o['format']), dims, o['meta'][0], o['meta'][1],
+            blit(li.skip_first), blit(li.skip_odd), blit(o['queryable']), li.limit, blit(bool(o.get('mixed'))))
 
 
 # ----------------------------------------------------------------------------- requests
@@ -449,7 +459,7 @@ def costly(summ):
 def replay_of(li, app, q, url, ans, summ):
     return {'grid': li.spec, 'layer_options': {'meta_size': li.opts['meta'], 'max_tile_limit': li.opts['max_tiles'],
                                                'dimensions': li.opts['dims'], 'queryable': li.opts['queryable']},
-            'max_output_pixels': app.max_pixels, 'request': q, 'url': url, 'answer': ans if isinstance(ans, str) else list(ans),
+            'max_output_pixels': app.max_pixels, 'bbox_srs_extent': app.srs_extent, 'mixed_cache': bool(li.opts.get('mixed')), 'request': q, 'url': url, 'answer': ans if isinstance(ans, str) else list(ans),
             'effects': summ[:40]}
 
 
@@ -571,7 +581,7 @@ def gen_tile_requests(ctx, li, count):
             q[rng.choice(['x', 'y', 'z'])] = rng.choice(ODD_COMPONENTS)
         r = rng.random()
         if r < 0.12:
-            q['fmt'] = rng.choice(['jpeg', 'gif', 'PNG', 'png8', 'tiff'])
+            q['fmt'] = rng.choice(['jpeg', 'jpeg', 'gif', 'PNG', 'png8', 'tiff', 'mixed', 'exe'])
         elif r < 0.2 and svc == 'WmtsKvpFI':
             q['fmt'] = None
         if svc == 'WmtsRestFI':
@@ -581,8 +591,14 @@ def gen_tile_requests(ctx, li, count):
                 if rng.random() < 0.3:
                     name = name.upper()
                 q['dims'][name] = rng.choice(['2020', '2021', 'default', '', '1999', '../x', '100', '0', 'Default'])
+                offered = li.opts['dims'].get(name.lower())
+                if offered and rng.random() < 0.6:
+                    v = rng.choice(offered[0])
+                    q['dims'][name] = rng.choice([v, v, v.lower(), v.upper(), v.swapcase(), v + 'x'])
         if svc in ('WmtsKvp', 'WmtsKvpFI') and li.opts['dims'] and rng.random() < 0.12:
-            q['dims'] = {rng.choice(sorted(li.opts['dims'])): rng.choice(['1999', '../x', 'Default', '20200', ' 2020'])}
+            dn = rng.choice(sorted(li.opts['dims']))
+            dv = rng.choice(li.opts['dims'][dn][0])
+            q['dims'] = {dn: rng.choice(['1999', '../x', 'Default', '20200', ' 2020', dv.lower(), dv.upper(), dv.swapcase(), dv + ' '])}
         if svc == 'Tiles' and rng.random() < 0.5:
             q['origin'] = rng.choice(['nw', 'sw', 'xx'])
         r = rng.random()
@@ -643,6 +659,12 @@ def gen_map_requests(ctx, li, app, count):
             r_ = Fraction(res) * rng.choice([1, 2, Fraction(1, 2)])
             x0 = gc.bbox[0] + rng.randrange(0, 3) * res
             y0 = gc.bbox[1] + rng.randrange(0, 3) * res
+            if app.srs_extent and rng.random() < 0.6:
+                # reach beyond the extent configured for the SRS: only a part (or nothing) of the request lies inside
+                e = app.srs_extent
+                r_ = r_ * rng.choice([1, 4, 16])
+                x0 = rng.choice([e[0], e[2]]) - rng.choice([w, w - 1, w // 2, 1, 0, w + 3]) * r_
+                y0 = rng.choice([e[1], e[3]]) - rng.choice([h, h - 1, h // 2, 1, 0, h + 3]) * r_
             b = [x0, y0, x0 + w * r_, y0 + h * r_]
         elif kind == 'far':
             r_ = Fraction(res)
@@ -710,7 +732,17 @@ def map_oracle(ctx, li, app, m, url, ans, summ):
         from mapproxy.grid import bbox_contains, bbox_intersects
         qb, qs = tuple(float(v) for v in m['bbox']), (m['w'], m['h'])
         skip = False
-        if not m['tiled'] and not bbox_contains(li.grid.bbox, qb):
+        tiled = m['tiled']
+        if app.srs_extent is not None:
+            se = tuple(float(v) for v in app.srs_extent)
+            if not bbox_contains(se, qb):
+                if not bbox_intersects(se, qb):
+                    skip = True
+                else:
+                    qs, _off, qb = bbox_position_in_image(qb, qs, se)
+                    tiled = False
+                    skip = qs[0] == 0 or qs[1] == 0
+        if not skip and not tiled and not bbox_contains(li.grid.bbox, qb):
             if not bbox_intersects(li.grid.bbox, qb):
                 skip = True
             else:
@@ -723,7 +755,7 @@ def map_oracle(ctx, li, app, m, url, ans, summ):
         n = None
     except Exception:  # noqa
         n = None
-    if n is not None and li.limit and n >= li.limit and not (m['tiled'] and (m['fmt'] != li.opts['format'] or (m['w'], m['h']) != (li.gc.tw, li.gc.th))):
+    if n is not None and li.limit and n >= li.limit and not (tiled and (m['fmt'] != li.opts['format'] or (m['w'], m['h']) != (li.gc.tw, li.gc.th))):
         if ans == 'Ok':
             ctx.fail('map,tile-limit,answered', 'request needing %d tiles answered although max_tile_limit is %d: %s' % (n, li.limit, url), rep)
         elif summ:
@@ -807,7 +839,7 @@ def process_map(ctx, col, app, rec, li, m):
     for e in log:
         if e[0] == 'store':
             li.stored.add(e[2])
-    ctx.case(('map', json.dumps(li.spec, sort_keys=True), json.dumps(li.opts, sort_keys=True, default=str), url, app.max_pixels),
+    ctx.case(('map', json.dumps(li.spec, sort_keys=True), json.dumps(li.opts, sort_keys=True, default=str), url, app.max_pixels, app.srs_extent),
              True, {'url': url, 'grid': li.spec, 'answer': ans if isinstance(ans, str) else list(ans), 'effects': summ[:8]})
     ctx.count('map_kind=' + m['kind'])
     ctx.count('answer=' + (ans if isinstance(ans, str) else 'other'))
@@ -819,11 +851,12 @@ def process_map(ctx, col, app, rec, li, m):
     if not li.exact:
         return
     mp = 'None' if not app.max_pixels else '(Some %d)' % (app.max_pixels[0] * app.max_pixels[1])
-    col.map_terms.append('(%s, %s, %s, (mkMap %s %d %d %d %s), (%s, [%s]))' % (
-        mp, li.lname, llit(sorted(cached), coord_lit), li.gc.zbbox(m['bbox']), m['w'], m['h'], fmt_id(m['fmt']), blit(m['tiled']),
+    se = 'None' if app.srs_extent is None else '(Some %s)' % li.gc.zbbox(app.srs_extent)
+    col.map_terms.append('(%s, %s, %s, %s, (mkMap %s %d %d %d %s), (%s, [%s]))' % (
+        mp, se, li.lname, llit(sorted(cached), coord_lit), li.gc.zbbox(m['bbox']), m['w'], m['h'], fmt_id(m['fmt']), blit(m['tiled']),
         al, '; '.join(effs)))
     col.map_desc.append({'url': url, 'grid': li.spec, 'layer_options': {k: v for k, v in li.opts.items()},
-                         'max_output_pixels': app.max_pixels, 'answer': ans, 'effects': summ[:40], 'cached_before': sorted(cached)[:30]})
+                         'max_output_pixels': app.max_pixels, 'bbox_srs_extent': app.srs_extent, 'answer': ans, 'effects': summ[:40], 'cached_before': sorted(cached)[:30]})
 
 
 def run(ctx):
@@ -842,9 +875,9 @@ def run(ctx):
                 opts = doc['layer_options']
                 o = {'meta': opts.get('meta_size', [1, 1]), 'max_tiles': opts.get('max_tile_limit'),
                      'dims': dict((k, (v[0], v[1])) for k, v in opts.get('dimensions', {}).items()),
-                     'queryable': opts.get('queryable', True), 'format': 'png'}
+                     'queryable': opts.get('queryable', True), 'mixed': opts.get('mixed', False), 'format': 'png'}
                 app = App(ctx, [('gc', doc['grid'], o, doc.get('skip_first', False), doc.get('skip_odd', False))],
-                          doc.get('max_output_pixels'))
+                          doc.get('max_output_pixels'), doc.get('bbox_srs_extent'))
                 prepare(app, col, seq)
                 li = app.layers[0]
                 for q in doc.get('tile_requests', []):
@@ -871,7 +904,17 @@ def run(ctx):
         for a in range(n_apps):
             maxpix = rng.choice([None, [64, 48], [100, 100], [300, 200], [256, 256], [128, 96]])
             specs = make_specs(ctx, n_exact, with_real=(a == 0 or not ctx.quick))
-            app = App(ctx, specs, maxpix)
+            srs_extent = None
+            if rng.random() < 0.67:
+                # an explicit extent for EPSG:3857 cutting through the grids of this application
+                gb = [s_[1]['bbox'] for s_ in specs if 'bbox' in s_[1]]
+                b0 = rng.choice(gb)
+                b1 = rng.choice(gb)
+                srs_extent = [min(b0[0], b1[0]) + rng.randrange(-200, 900), min(b0[1], b1[1]) + rng.randrange(-200, 900),
+                              max(b0[2], b1[2]) - rng.randrange(-200, 900), max(b0[3], b1[3]) - rng.randrange(-200, 900)]
+                if not (srs_extent[0] < srs_extent[2] and srs_extent[1] < srs_extent[3]):
+                    srs_extent = [min(b0[0], b1[0]), min(b0[1], b1[1]), max(b0[2], b1[2]), max(b0[3], b1[3])]
+            app = App(ctx, specs, maxpix, srs_extent)
             prepare(app, col, seq)
             for li in app.layers:
                 reqs = [('t', q) for q in gen_tile_requests(ctx, li, n_tile if (li.exact or li.skip_odd) else n_tile // 2)]
@@ -889,8 +932,8 @@ def run(ctx):
         "fun c => let '(ly, cached, q, tol, obs) := c in result_matches tol (serve_tile ly cached q) obs",
         lambda i: col.tile_desc[i], defs=defs)
     ctx.corr_check(
-        'map', 'Grid Limits', 'option Z * layer * list coord * mreq * (answer * list effect)', col.map_terms,
-        "fun c => let '(mp, ly, cached, q, obs) := c in result_matches 0 (serve_map mp ly cached q) obs",
+        'map', 'Grid Limits', 'option Z * option bbox * layer * list coord * mreq * (answer * list effect)', col.map_terms,
+        "fun c => let '(mp, se, ly, cached, q, obs) := c in result_matches 0 (serve_map mp se ly cached q) obs",
         lambda i: col.map_desc[i], defs=defs, shard=200)
 
 
